@@ -250,6 +250,72 @@ def sym_sqrt(x):
     return SymReal(s)
 
 
+class SymBytes(object):
+    """what ndarray.tobytes() of symbolic cells stands for: a sequence of
+    real byte strings and (dtype string, symbolic value) items"""
+
+    def __init__(self, items):
+        self.items = list(items)
+
+    def __add__(self, o):
+        if isinstance(o, SymBytes):
+            return SymBytes(self.items + o.items)
+        if isinstance(o, (bytes, bytearray)):
+            return SymBytes(self.items + [bytes(o)])
+        return NotImplemented
+
+    def __radd__(self, o):
+        if isinstance(o, (bytes, bytearray)):
+            return SymBytes([bytes(o)] + self.items)
+        return NotImplemented
+
+    def __len__(self):
+        return sum(len(i) if isinstance(i, bytes) else
+                   _np.dtype(i[0]).itemsize for i in self.items)
+
+
+class ByteSink(object):
+    """file object that records what is written (bytes and SymBytes)"""
+
+    def __init__(self):
+        self.pieces = []
+        self.closed = False
+
+    def write(self, b):
+        if isinstance(b, SymBytes):
+            self.pieces += b.items
+        else:
+            self.pieces.append(bytes(b))
+
+    def flush(self):
+        pass
+
+    def close(self):
+        self.closed = True
+
+    def words(self):
+        """flat list of 4-byte words: int (big-endian signed) for real bytes,
+        (dtype string, value) for symbolic items; None on misalignment"""
+        import struct as _st
+        out = []
+        pend = b''
+        for it in self.pieces:
+            if isinstance(it, bytes):
+                pend += it
+                continue
+            if len(pend) % 4:
+                return None
+            out += list(_st.unpack('>%di' % (len(pend) // 4), pend))
+            pend = b''
+            if _np.dtype(it[0]).itemsize != 4:
+                return None
+            out.append(it)
+        if len(pend) % 4:
+            return None
+        out += list(_st.unpack('>%di' % (len(pend) // 4), pend))
+        return out
+
+
 class SymNDArray(_np.ndarray, metaclass=_NDMeta):
     """numpy.ndarray whose comparisons-based reductions (min/max) and
     sqrt-based ones (std) on *object* arrays of symbolic scalars build z3
@@ -289,6 +355,29 @@ class SymNDArray(_np.ndarray, metaclass=_NDMeta):
         return _np.ndarray.view(self, *a, **k)
 
     def astype(self, dtype, *a, **k):
+        out = self._astype(dtype, *a, **k)
+        if out.dtype == object and isinstance(out, SymNDArray):
+            # remembered for tobytes()/tofile(): the machine type the cells
+            # stand for
+            out._as_dtype = _np.dtype(dtype)
+        return out
+
+    def tobytes(self, order='C'):
+        if self.dtype != object:
+            return _np.ndarray.tobytes(self, order)
+        dt = getattr(self, '_as_dtype', None)
+        if dt is None:
+            raise TypeError('bytes of an object array whose machine type is '
+                            'unknown')
+        return SymBytes([(dt.str, x) for x in self.reshape(-1)])
+
+    def tofile(self, fid, sep='', format='%s'):
+        if hasattr(fid, 'pieces'):
+            fid.write(self.tobytes())
+            return
+        return _np.ndarray.tofile(self, fid, sep, format)
+
+    def _astype(self, dtype, *a, **k):
         if self.dtype == object and _np.dtype(dtype).kind in 'fiu' and \
                 any(isinstance(x, (symx.SymFP, symx.SymBVInt))
                     for x in self.flat):
